@@ -10,7 +10,7 @@ namespace NV
 
 def capEventKinds : List String :=
   ["udp-ok", "udp-err", "udp-timeout", "udp-panic", "udp-small", "udp-malformed", "udp-d53tc", "tcp-d53tc",
-   "tcp-ok", "tcp-err", "tcp-panic", "tcp-small", "tcp-midframe", "tcp-idle-close", "tcp-timeout", "tcp-pipeline", "tcp-empty", "tcp-tinyframes"]
+   "tcp-ok", "tcp-err", "tcp-panic", "tcp-small", "tcp-midframe", "tcp-idle-close", "tcp-timeout", "tcp-pipeline", "tcp-empty", "tcp-tinyframes", "tcp-pipeline-abort"]
 
 /-- units held by threads after a storm in which every request has ended: none (NV.C04
 `every_path_balanced`), so the full capacity is available again -/
